@@ -312,7 +312,10 @@ func observed(sig, hints map[string]string, sc replay.Script, rep *replay.Result
 			if o.Returned && o.Leaked > 0 {
 				return true, ""
 			}
-			why = fmt.Sprintf("returned=%v leaked=%d", o.Returned, o.Leaked)
+			if sig["kind"] == "unjoined-goroutine" && o.Returned && o.RunningAtReturn > 0 {
+				return true, "" // a goroutine of the injector was still running when it returned
+			}
+			why = fmt.Sprintf("returned=%v leaked=%d running-at-return=%d", o.Returned, o.Leaked, o.RunningAtReturn)
 		case "double-close":
 			if strings.Contains(o.Panic, "close of closed channel") {
 				return true, ""
